@@ -102,6 +102,22 @@ def corpus() -> list[dict]:
     out.append({"name": "rollback-inner-slots", "class": "plain", "cfg": rb, "seed": 7, "ops": [
         _sched(1, 0, 2, "0", r0, targets=(1,)), {"op": "settle"}, _notify(0, 2, "0", S.ROLLBACK), {"op": "settle"},
         _sched(2, 1, 2, "1", r0, targets=(1,)), {"op": "settle"}]})
+    # 9. the disk-usage probe fails at release time: the job must still be released (usage counted as 0)
+    pf = {"deployments": [{"name": "d0", "wraps": None, "locs": [
+        {"name": "d0l0", "hw": _hw(2.0, 4.0, [["/", "/", 10.0, ["/w/out", "/w/tmp"], None]]), "slots": None, "wraps": None}]}],
+        "sizes": {"d0": {"/w/out": -1, "/w/tmp": 2 ** 20}}, "targets": [{"dep": "d0", "locations": 1}]}
+    rs = _hw(2.0, 1.0, [["__outdir__", "/", 2.0, ["/w/out"], None], ["__tmpdir__", "/", 1.0, ["/w/tmp"], None]])
+    out.append({"name": "failing-usage-probe", "class": "plain", "cfg": pf, "seed": 9, "ops": [
+        _sched(1, 0, 1, "0", rs), _sched(2, 1, 2, "0", rs), {"op": "settle"}, _notify(0, 1, "0", S.RUNNING),
+        _notify(0, 1, "0", S.COMPLETED), {"op": "settle"}, _notify(1, 2, "0", S.RUNNING), _notify(1, 2, "0", S.FAILED), {"op": "settle"}]})
+    pfs = {"deployments": [
+        {"name": "d0", "wraps": None, "locs": [{"name": "d0l0", "hw": host, "slots": None, "wraps": None}]},
+        {"name": "d1", "wraps": "d0", "locs": [{"name": "d1l0", "hw": cont, "slots": None, "wraps": "d0l0"}]}],
+        "sizes": {"d0": {"/host/d1/out": -1}, "d1": {"/w/out": 3 * 2 ** 20}},
+        "targets": [{"dep": "d0", "locations": 1}, {"dep": "d1", "locations": 1}]}
+    out.append({"name": "failing-usage-probe-inner-level", "class": "plain", "cfg": pfs, "seed": 10, "ops": [
+        _sched(1, 0, 1, "0", r1, targets=(1,)), {"op": "settle"}, _notify(0, 1, "0", S.RUNNING), _notify(0, 1, "0", S.COMPLETED),
+        {"op": "settle"}, _sched(2, 1, 2, "0", r1, targets=(1,)), {"op": "settle"}, _notify(1, 2, "0", S.CANCELLED), {"op": "settle"}]})
     # 8. slots: three jobs on a two-slot location
     sl = {"deployments": [{"name": "d0", "wraps": None, "locs": [{"name": "d0l0", "hw": None, "slots": 2, "wraps": None}]}],
           "sizes": {"d0": {}}, "targets": [{"dep": "d0", "locations": 1}]}
@@ -163,6 +179,14 @@ def causes(world: H.World, cfg: dict, cls: str, upto: int | None = None, exact_d
     return "unexplained"
 
 
+def _fail(ctx: Ctx, key: str, detail: str, replay: Any, per_key: int = 6) -> None:
+    """ctx.fail with a per-key cap: the framework keeps at most 200 failures, known findings must not crowd out others"""
+    counts = ctx.extra.setdefault("failures_by_key", {})
+    counts[key] = counts.get(key, 0) + 1
+    if counts[key] <= per_key:
+        ctx.fail(key, detail, replay)
+
+
 def evaluate(ctx: Ctx, pid: str, world: H.World, checks: list[dict], timed_out: bool, cfg: dict, ops: list[dict],
              seed: int, cls: str, name: str | None = None) -> None:
     """the property's own invariants on the REAL state"""
@@ -173,19 +197,19 @@ def evaluate(ctx: Ctx, pid: str, world: H.World, checks: list[dict], timed_out: 
             if c.get("capacity"):
                 # in the decimal class an excess within 1e-9 is the float finding, a larger one is not
                 cause = causes(world, cfg, cls, c.get("log_len"), exact_domain=bool(c.get("capacity_tol")))
-                ctx.fail(f"over-capacity:{cause}", f"after op {c['at']} ({c.get('op')}): " + "; ".join(c["capacity"][:3]), replay)
+                _fail(ctx, f"over-capacity:{cause}", f"after op {c['at']} ({c.get('op')}): " + "; ".join(c["capacity"][:3]), replay)
                 break
     if "zero" in inv:
         for c in checks:
             if c.get("zero"):
                 cause = causes(world, cfg, cls, c.get("log_len"), exact_domain=bool(c.get("zero_tol")))
-                ctx.fail(f"not-zero:{cause}", f"after op {c['at']} ({c.get('op')}): " + "; ".join(c["zero"][:3]), replay)
+                _fail(ctx, f"not-zero:{cause}", f"after op {c['at']} ({c.get('op')}): " + "; ".join(c["zero"][:3]), replay)
                 break
     if "notify-raised" in inv:
         for i, e in enumerate(world.log):
             if e["ev"] == "notify" and e["err"] not in (None, "unknownJob"):
                 cause = causes(world, cfg, cls, i + 1)
-                ctx.fail(f"notify-raised:{cause}", f"notify_status({e['job']}, {Status(e['status']).name}) raised {e['err']}: "
+                _fail(ctx, f"notify-raised:{cause}", f"notify_status({e['job']}, {Status(e['status']).name}) raised {e['err']}: "
                          f"{e.get('err_text', '')[:200]}", replay)
                 break
     if "missed" in inv:
@@ -193,14 +217,25 @@ def evaluate(ctx: Ctx, pid: str, world: H.World, checks: list[dict], timed_out: 
             if c.get("missed"):
                 m = c["missed"][0]
                 cause = causes(world, cfg, cls, c.get("log_len"))
-                ctx.fail(f"missed-fit:{cause}", f"quiescent after op {c['at']} ({c.get('op')}): request for {m['job']} still waiting while it "
+                _fail(ctx, f"missed-fit:{cause}", f"quiescent after op {c['at']} ({c.get('op')}): request for {m['job']} still waiting while it "
                          f"fits target {m['target']} on {m['fits_on']}", replay)
                 break
     if "timeout" in inv and timed_out:
-        ctx.fail(f"hang:{causes(world, cfg, cls)}", "scenario did not finish within its time bound", replay)
+        _fail(ctx, f"hang:{causes(world, cfg, cls)}", "scenario did not finish within its time bound", replay)
 
 
 def explore(ctx: Ctx, pid: str) -> None:
+    import logging
+    from streamflow.log_handler import logger
+    old = logger.level
+    logger.setLevel(logging.ERROR)      # _free_resources warns on every scripted failure of the disk-usage probe
+    try:
+        _explore(ctx, pid)
+    finally:
+        logger.setLevel(old)
+
+
+def _explore(ctx: Ctx, pid: str) -> None:
     rng = ctx.rng
     n = {"quick": 260, "thorough": 2600}[ctx.tier]
     if ctx.mode == "search":
